@@ -106,6 +106,53 @@ let clause_of (d : string) : string =
       | 'N' -> "window" | 'H' -> "having_text" | 'O' -> "with_options" | 'K' -> "order_by" | 'L' -> "limit"
       | 'D' -> "distinct" | _ -> "structure") else "structure"
 
+(* classifiers for recorded findings (known_findings.d/C11.jsonl).  The harness passes the names of the
+   registered analytic (A) and aggregate / window (G) functions that occur in the statement text.
+   [where_literal_contains_analytic_call_shape]: a string literal or back-quoted identifier of the WHERE
+   clause contains an analytic function name followed by blanks and "(";
+   [item_literal_contains_aggregate_call_shape]: a string literal or back-quoted identifier inside a
+   select item contains an aggregate / analytic / window function name followed by blanks and "(";
+   in both cases no such name is written as a word outside literals anywhere in the statement.
+   Only labels on a chk verdict; they never turn a violation into ok. *)
+let contains_call_shape (name : string) (v : string) : bool =
+  let v = String.lowercase_ascii v and n = String.length name in
+  let lv = String.length v in
+  let rec at i =
+    if i + n > lv then false
+    else if String.sub v i n = name then
+      (let j = ref (i + n) in
+       while !j < lv && (v.[!j] = ' ' || v.[!j] = '\t') do incr j done;
+       if !j < lv && v.[!j] = '(' then true else at (i + 1))
+    else at (i + 1) in
+  n > 0 && at 0
+let finding_labels (names : string list) (st : stmt) : string =
+  let pick c = List.filter_map (fun h -> if String.length h > 1 && h.[0] = c
+                                 then Some (String.lowercase_ascii (unhex (String.sub h 1 (String.length h - 1)))) else None) names in
+  let an = pick 'A' in
+  let ag = an @ pick 'G' in
+  let is_lit t = let k = int_of_n t.ttype in k = 3 || k = 4 in
+  let lit_has ns l = List.exists (fun t -> is_lit t && List.exists (fun n -> contains_call_shape n (str_of_bytes t.tval)) ns) l in
+  let items = List.concat_map (fun it -> it.it_expr) st.s_items in
+  let all = items @ st.s_where @ st.s_having in
+  let written ns = List.exists (fun t -> not (is_lit t) && List.mem (String.lowercase_ascii (str_of_bytes t.tval)) ns) all in
+  (if lit_has an st.s_where && not (written an) then " [where_literal_contains_analytic_call_shape]" else "")
+  ^ (if lit_has ag items && not (written ag)
+     then " [item_literal_contains_aggregate_call_shape]" else "")
+
+let after_hash (l : string list) : string list * string list =
+  let rec go acc = function
+    | [] -> (List.rev acc, [])
+    | "#" :: r -> (List.rev acc, r)
+    | x :: r -> go (x :: acc) r in
+  go [] l
+
+(* the digests are comma-separated key:value lists in a fixed key order *)
+let digest_diff (d1 : string) (d2 : string) : string =
+  let f d = List.map (fun kv -> split2 kv ':') (String.split_on_char ',' d) in
+  let l1 = f d1 and l2 = f d2 in
+  if List.map fst l1 <> List.map fst l2 then "keys"
+  else String.concat "," (List.filter_map (fun ((k, v1), (_, v2)) -> if v1 = v2 then None else Some (k ^ ":" ^ v1 ^ "/" ^ v2)) (List.combine l1 l2))
+
 let handle (toks : string list) : string =
   match toks with
   | "E" :: codes ->
@@ -125,8 +172,8 @@ let handle (toks : string list) : string =
            else if int_of_nat e <> int_of_string eof then Printf.sprintf "diff lexer_eof_pos model=%d" (int_of_nat e)
            else if List.length m >= 2 then "ok nt" else "ok")
   | "P" :: sql :: "#" :: rest ->
-      (match split_hash rest with
-       | [expd; obs] ->
+      (match (match split_hash rest with [e; o] -> Some (e, o, []) | [e; o; a] -> Some (e, o, a) | _ -> None) with
+       | Some (expd, obs, anames) ->
            (match parse_ref (tokens (bytes_of_hex sql)) with
             | None -> "diff reference_parser_rejects_generated_statement"
             | Some st ->
@@ -136,13 +183,33 @@ let handle (toks : string list) : string =
                 else if not (wf_stmt st) then "diff generated_statement_not_wf"
                 else if parse_ref (print st) <> Some st then "diff print_parse_roundtrip"
                 else (match obs with
-                    | "ERR" :: msg :: _ -> "chk parse_accepts_documented_grammar error=" ^ unhex msg
+                    | "ERR" :: msg :: _ -> "chk parse_accepts_documented_grammar error=" ^ unhex msg ^ finding_labels anames st
                     | _ ->
                         let fo = List.map (norm_field ~expected:false) obs in
                         let fm' = List.map mask_source fm in
                         if fo = fm' then "ok nt"
-                        else let d = first_diff fm' fo in "chk faithful_" ^ clause_of d ^ " " ^ d))
-       | _ -> "bad line")
+                        else let d = first_diff fm' fo in "chk faithful_" ^ clause_of d ^ " " ^ d ^ finding_labels anames st))
+       | None -> "bad line")
+  | "D" :: s1 :: s2 :: o1 :: o2 :: m1 :: d1 :: d2 :: rest ->
+      (* "a literal is data": the written statement and its twin with neutral literal contents (same token
+         stream up to the values of string / back-quoted tokens, checked with the lexer model) must be
+         answered alike and give a configuration of the same shape (implementation-level differential) *)
+      let names = snd (after_hash rest) in
+      let t1 = List.map canon (tokens (bytes_of_hex s1)) and t2 = List.map canon (tokens (bytes_of_hex s2)) in
+      let is_lit t = let k = int_of_n t.ttype in k = 3 || k = 4 in
+      let same_tok a b = a.ttype = b.ttype && (is_lit a || a.tval = b.tval) in
+      if List.length t1 <> List.length t2 || not (List.for_all2 same_tok t1 t2) then "diff not_literal_variants"
+      else (match parse_ref t1 with
+          | None -> "diff reference_parser_rejects_generated_statement"
+          | Some st ->
+              if parse_ref t2 = None then "diff reference_parser_rejects_neutral_twin"
+              else if o1 = "panic" || o1 = "timeout" then "chk parse_total " ^ o1
+              else if o2 = "panic" || o2 = "timeout" then "chk parse_total " ^ o2
+              else if o1 <> o2 then
+                Printf.sprintf "chk literal_is_data outcome written=%s neutral=%s error=%s%s" o1 o2 (if m1 = "-" then "-" else unhex m1) (finding_labels names st)
+              else if o1 <> "ok" then "ok"
+              else if d1 <> d2 then "chk literal_is_data differs=" ^ digest_diff d1 d2 ^ finding_labels names st
+              else "ok nt")
   | ["R"; s1; s2; same; nres; detail] ->
       let p1 = parse_ref (tokens (bytes_of_hex s1)) in
       if p1 = None || p1 <> parse_ref (tokens (bytes_of_hex s2)) then "diff not_layout_variants"
